@@ -143,6 +143,12 @@ def judge_irrelevant(rec, T, out, witness):
         out.skip('unjudgeable-kind')
         return
     a, b = terms.refsub3(r, tt, T), terms.refsub3(tt, r, T)
+    if (a or b) and rec.get('result_prim_arg'):
+        # terms identify a primitive with its box (Builtin.__eq__ is by class); an instantiation with a
+        # PRIMITIVE type argument (B<int>) is related to nothing in the IR's own relation, and whether it
+        # is a type at all is not what this property states: not judged, counted
+        out.skip('result-has-primitive-type-argument')
+        return
     if a or b:
         top, T.top = T.top, None
         try:
@@ -219,6 +225,8 @@ class Core:
                 try:
                     core.records.append({'api': 'fi', 'etype': terms.to_term(etype),
                                          'result': None if r is None else terms.to_term(r),
+                                         'result_prim_arg': bool(r is not None and getattr(r, 'type_args', None)
+                                                                 and terms.mentions_primitive(r)),
                                          'objs': [etype] + ([r] if r is not None else [])})
                 except Exception as e:
                     core.out.skip('monitor-failed:' + type(e).__name__)
@@ -303,8 +311,37 @@ def cell_typelab(cell):
 
 
 def cell_replay(cell):
+    """Re-build the witness's class table from its spec and repeat the query (the witness's type, both
+    searches, both pools) under 400 RNG seeds; the same judges decide."""
+    from vf import boot, typelab
+    boot.light()
+    from src.ir import type_utils as tu
+    from src import utils
     out = common.CellOut()
-    out.info['note'] = 'typelab C09 witnesses replay by re-running the check with the same VERIF_SEED'
+    core = Core(out)
+    w = cell['witness']
+
+    def tup(x):
+        return tuple(tup(i) for i in x) if isinstance(x, list) else x
+    if 'spec' not in w or 'etype_term' not in w:
+        out.info['note'] = 'witness has no spec/etype_term: re-run the check with the same VERIF_SEED'
+        return out.result()
+    lab = typelab.Lab(w['spec'])
+    rq = lab.real(tup(w['etype_term']))
+    pool = list(lab.decls.values()) + list(lab.f.get_non_nothing_types())
+    pool_types = [d.get_type() for d in lab.decls.values()] + list(lab.f.get_non_nothing_types())
+    for rs in range(400):
+        utils.random.r.seed(rs)
+        try:
+            tu.find_subtypes(rq, pool, include_self=bool(rs % 2), concrete_only=rs % 4 < 2)
+        except Exception:
+            pass
+        try:
+            tu.find_irrelevant_type(rq, pool_types, lab.f)
+        except Exception:
+            pass
+        core.judge_all(lab.T, {'spec': w['spec']})
+    out.info['note'] = 'query repeated under 400 RNG seeds'
     return out.result()
 
 
